@@ -205,7 +205,7 @@ def _auth_op(w, st, o, held):
     if op == "auth_reads":
         from worlds.server_world import Resp
         seen = []
-        for (rule, method, has_id, args) in _targets(w.app):
+        for (rule, method, has_id, args, _ep) in _targets(w.app):
             if method != "GET" or rule.startswith("/static"):
                 continue
             for variant in ((rule, rule.rstrip("/") + "/") if rule != "/" else (rule,)):
@@ -289,9 +289,40 @@ def _targets(app):
         for m in sorted(rule.methods):
             if m == "OPTIONS":
                 continue
-            out.append((rule.rule, m, "instance_uuid" in rule.arguments, sorted(rule.arguments)))
+            out.append((rule.rule, m, "instance_uuid" in rule.arguments, sorted(rule.arguments), rule.endpoint))
     out.sort()
     return out
+
+
+def _body_from_handler(app, endpoint, st):
+    """a route the harness has no template for: read the keys its view function looks up in the JSON body from the
+    function's source and fill them with plausible values (ids of known instances, pieces of the known templates)"""
+    import inspect
+    import re
+    try:
+        src = inspect.getsource(app.view_functions[endpoint])
+    except Exception:
+        return None
+    keys = set(re.findall(r"""content\[\s*["'](\w+)["']\s*\]""", src)) | set(re.findall(r"""["'](\w+)["']\s+(?:not\s+)?in\s+content""", src)) \
+        | set(re.findall(r"""content\.get\(\s*["'](\w+)["']""", src))
+    if not keys:
+        return None
+    ids = [v for k, v in sorted(st.get("ids", {}).items())] + ([st["expired"]] if st.get("expired") else [])
+    known = {}
+    for b in BODIES.values():
+        known.update(b)
+    body = {}
+    for k in sorted(keys):
+        lk = k.lower()
+        if k in known:
+            body[k] = known[k]
+        elif "uuids" in lk or lk.endswith("ids") or "instances" in lk:
+            body[k] = list(ids) or ["feedfacefeedface"]
+        elif "uuid" in lk or lk.endswith("id") or "instance" in lk:
+            body[k] = ids[0] if ids else "feedfacefeedface"
+        else:
+            body[k] = 1
+    return body
 
 
 def _body_for(path_rule):
@@ -325,14 +356,17 @@ def _burst(w, st, res, log, case, bno):
     n = 0
     limit = case.get("limit")
     only = case.get("only")
-    for (rule, method, has_id, args) in _targets(w.app):
+    for (rule, method, has_id, args, endpoint) in _targets(w.app):
         known_body = _body_for(rule)
         bodies = [("none", None)]
         if known_body is not None:
             bodies.append(("authorised_body", known_body))
         elif rule not in PUBLIC and not rule.startswith("/static") and method in ("POST", "PUT", "PATCH", "DELETE"):
-            # a route the harness has no template for: send every known template
+            # a route the harness has no template for: send every known template, and a body made of the keys its handler reads
             bodies += [("template:" + k, v) for k, v in sorted(BODIES.items())]
+            hb = _body_from_handler(w.app, endpoint, st)
+            if hb is not None:
+                bodies.append(("keys_the_handler_reads", hb))
         for idc, iid in (idclasses if has_id else [("n/a", None)]):
             path = rule
             for a in args:
